@@ -38,7 +38,7 @@ def run(ctx):
         vlib.model_check(ctx, "MC_JsonDoc.tla", "MC_JsonDoc.cfg", workers=6, timeout=1200)
     b = vlib.harness_bin("c06")
     tp = ctx.path("trace.ndjson")
-    docs, large, nlarge = (240, 30000, 2) if q else (700, 1000000, 1)
+    docs, large, nlarge = (240, 30000, 2) if q else (1200, 1000000, 2)
     rc, out, wall = vlib.sh([b, "record", tp, "seed=%d" % ctx.seed, "docs=%d" % docs, "large=%d" % large,
                              "nlarge=%d" % nlarge], timeout=900)
     stats = json.loads(out.strip().splitlines()[-1])
